@@ -62,6 +62,7 @@ class CreatedRequestCache(NumberCacheWithName):
         self.candidate = candidate
         self.candidates = candidates
         self.timeout = timeout
+        self.extend_identifier: int | None = None
 
     @property
     def timeout_delay(self) -> float:
